@@ -845,8 +845,12 @@ class StaticVector : public StaticVectorBase<T, SizeType> {
 
   template <class VectorType>
   void swap2_impl(VectorType &o) noexcept(is_swap_noexcept<T>::value) {
-    swap_deep(this->begin(), this->size(), o.begin(), o.size());
-    swap_sizetype(this->msize(), o.msize());
+    // Capacities have been adjusted: each size fits in the other vector (and in its size_type)
+    const SizeType mySize = this->size();
+    const typename VectorType::size_type oSize = o.size();
+    swap_deep(this->begin(), mySize, o.begin(), oSize);
+    this->setSize(static_cast<SizeType>(oSize));
+    o.setSize(static_cast<typename VectorType::size_type>(mySize));
   }
 
   // Adjust capacity methods take uintmax_t as parameter to check for size_type overflow
@@ -970,19 +974,33 @@ class DynamicVector : public DynamicVectorBaseTypeDispatcher<T, Alloc, SizeType,
   template <class OSizeType, class OGrowingPolicy>
   void swap2_impl(StaticVector<T, OSizeType, OGrowingPolicy> &o) noexcept(is_swap_noexcept<T>::value) {
     // Here 'o' cannot grow so we cannot swap any dynamic storage. Deeply swap all elements
-    swap_deep(this->begin(), this->size(), o.begin(), o.size());
-    swap_sizetype(this->msize(), o.msize());
+    // Capacities have been adjusted: each size fits in the other vector (and in its size_type)
+    const SizeType mySize = this->size();
+    const OSizeType oSize = o.size();
+    swap_deep(this->begin(), mySize, o.begin(), oSize);
+    this->setSize(static_cast<SizeType>(oSize));
+    o.setSize(static_cast<OSizeType>(mySize));
   }
 
   template <class OAlloc, class OSizeType, bool OWithInlineElems>
   void swap2_impl(DynamicVector<T, OAlloc, OSizeType, OWithInlineElems> &o) noexcept(is_swap_noexcept<T>::value) {
     if (this->canSwapDynStorage(o)) {
-      this->swapDynStorage(o);
+      // Both vectors use a dynamic storage. Take the references on their sizes before any modification (which size
+      // word is the 'real' one depends on the capacity for a SmallVector), then exchange capacities first: it throws
+      // before any modification if one of them cannot be stored in the other size_type (sizes are then fine as well).
+      SizeType &mySize = this->msize();
+      OSizeType &oSize = o.msize();
       swap_sizetype(this->mcapacity(), o.mcapacity());
+      swap_sizetype(mySize, oSize);
+      this->swapDynStorage(o);
     } else {
-      swap_deep(this->begin(), this->size(), o.begin(), o.size());
+      // Capacities have been adjusted: each size fits in the other vector (and in its size_type)
+      const SizeType mySize = this->size();
+      const OSizeType oSize = o.size();
+      swap_deep(this->begin(), mySize, o.begin(), oSize);
+      this->setSize(static_cast<SizeType>(oSize));
+      o.setSize(static_cast<OSizeType>(mySize));
     }
-    swap_sizetype(this->msize(), o.msize());
   }
 
   // Adjust capacity methods take uintmax_t as parameter to check for size_type overflow
@@ -1412,8 +1430,10 @@ class VectorImpl : public VectorDestr<T, Alloc, SizeType, WithInlineElements, Gr
   /// It has one drawback though: it can throw (as it can make SmallVectors grow)
   template <class OAlloc, class OSizeType, bool OWithInlineElements, class OGrowingPolicy>
   void swap2(VectorImpl<T, OAlloc, OSizeType, OWithInlineElements, OGrowingPolicy> &o) {
-    this->adjustEachOtherCapacity(o);
-    this->swap2_impl(o);
+    if (AMC_LIKELY(static_cast<const void *>(this) != static_cast<const void *>(std::addressof(o)))) {
+      this->adjustEachOtherCapacity(o);
+      this->swap2_impl(o);
+    }
   }
 
   /// Append elements to the end of the vector. Similar to: vec.insert(vec.end(), ...).
